@@ -105,6 +105,10 @@ T_C07wire == [][(IsI /\ Ev.o.csn # NoName /\ Ev.o.csn \in DOMAIN cs) => (Ev.od[1
 \* CS content after a Data step is what capacity + LRU prescribe
 T_C07cs == [][IsD => (DEarly(DIn) \/ SeqToSet(Ev.o.csNames) = DOMAIN cs')]_tvars
 T_C07cap == [][IsD => (DEarly(DIn) \/ DIn.n \in DOMAIN cs \/ Len(Ev.o.csNames) <= (IF cap < 0 THEN 0 ELSE cap))]_tvars
+\* the cache asked directly (prefix lookups for names with and without a tree node of their own): an answer is a cached packet whose
+\* name extends the name asked for, fresh if freshness was asked for
+T_C07probe == [][Live => \A x \in 1..Len(Ev.probes) : LET q == Ev.probes[x] IN
+                  q.r = NoName \/ (q.r \in DOMAIN cs' /\ IsPrefix(q.n, q.r) /\ (q.mbf => now' <= cs'[q.r].stale))]_tvars
 T_C07 == P_C07 /\ T_C07wire /\ T_C07cs /\ T_C07cap
 
 (* ---------------- C08 ---------------- *)
